@@ -284,10 +284,17 @@ pub fn evaluate(prog: &Program, out: &RunOut) -> (Vec<Viol>, Feat) {
             N::REGISTER_SEND | N::REGISTER_RECV => {
                 if let Some(i) = op {
                     if n.kind == N::REGISTER_SEND {
-                        a.on[i].reg_send = Some(n.stamp);
+                        // the FIRST registration counts ("already pending inside the channel")
+                        if a.on[i].reg_send.is_none() {
+                            a.on[i].reg_send = Some(n.stamp);
+                        } else {
+                            f.add("re_registered_sender", 1);
+                        }
                         f.add(if ops[i].k.is_async() { "reg_send_async" } else { "reg_send_sync" }, 1);
                     } else {
-                        a.on[i].reg_recv = Some(n.stamp);
+                        if a.on[i].reg_recv.is_none() {
+                            a.on[i].reg_recv = Some(n.stamp);
+                        }
                         f.add(if ops[i].k.is_async() { "reg_recv_async" } else { "reg_recv_sync" }, 1);
                     }
                     a.on[i].sig = n.arg;
